@@ -10,13 +10,14 @@ import (
 )
 
 func init() {
-	Explanations["C08"] = "Decides structural necessary conditions of 'the host commits only doubly-signed revisions derived from the locked contract' for every RHP4 handler of rhp.Server that reaches a Contractor mutator: (R1) revising sinks are dominated by a successful contract lock whose Revisable flag was tested, with the unlock deferred and never called before the sink; (R2) where the request type has a challenge signature it is validated against the locked revision before the sink; (R3) the revision handed to the sink is the result of a core constructor applied to the locked revision (never a contract decoded from the wire); (R4) the sink is dominated by the true edge of RenterPublicKey.VerifyHash over the sig-hash of exactly the value handed to the sink, and between hashing and the sink only the two signature fields of that value are written; (R5) the stored host signature signs that same hash; (R6) every use of the request's price table / account token is dominated by the success edge of a Validate call that (per a summary recomputed from core's source) checks the host's signature and expiry with the host's own key. NOT decided: arithmetic of core's ReviseFor*/PayWithContract (value conservation, monotone revision numbers), consensus acceptability, races between RPCs beyond the lock discipline."
+	Explanations["C08"] = "Decides structural necessary conditions of 'the host commits only doubly-signed revisions derived from the locked contract' for every RHP4 handler of rhp.Server that reaches a Contractor mutator: (R1) revising sinks are dominated by a successful contract lock whose Revisable flag was tested, with the unlock deferred and never called before the sink; (R2) where the request type has a challenge signature it is validated against the locked revision before the sink; (R3) the revision handed to the sink is the result of a core constructor applied to the locked revision (never a contract decoded from the wire); (R4) the sink is dominated by the true edge of RenterPublicKey.VerifyHash over the sig-hash of exactly the value handed to the sink, and between hashing and the sink only the two signature fields of that value are written; (R5) the stored host signature signs that same hash; (R6) every use of the request's price table / account token is dominated by the success edge of a Validate call that (per a summary recomputed from core's source) checks the host's signature and expiry with the host's own key. (R7) AddV2Contract / RenewV2Contract are dominated by the success edge of ChainManager.AddV2PoolTransactions over the same basis and transaction set, so the host records (and finalises the old contract for) only a formation or renewal that consensus validation accepted (same check as C16.R3). NOT decided: arithmetic of core's ReviseFor*/PayWithContract (value conservation, monotone revision numbers), consensus acceptability, races between RPCs beyond the lock discipline."
 
 	register(&Rule{ID: "C08.R1", Prop: "C08", Floor: 8, Doc: "revising sinks run under a revisable contract lock whose unlock is deferred", Run: c08r1})
 	register(&Rule{ID: "C08.R2", Prop: "C08", Floor: 6, Doc: "challenge signature validated against the locked revision before the sink", Run: c08r2})
 	register(&Rule{ID: "C08.R3", Prop: "C08", Floor: 6, Doc: "the persisted revision is a core constructor's result over the locked revision", Run: c08r3})
 	register(&Rule{ID: "C08.R4", Prop: "C08", Floor: 9, Doc: "renter signature verified over the hash of exactly the persisted value before the sink", Run: c08r4})
 	register(&Rule{ID: "C08.R5", Prop: "C08", Floor: 9, Doc: "host signature stored is SignHash of the verified hash", Run: c08r5})
+	register(&Rule{ID: "C08.R7", Prop: "C08", Floor: 3, Doc: "formation/renewal sets are accepted by the transaction pool before the contractor records them (consensus acceptability)", Run: c16r3})
 	register(&Rule{ID: "C08.R6", Prop: "C08", Floor: 9, Doc: "price table and account token used only after validation with the host key", Run: c08r6})
 }
 
